@@ -298,3 +298,97 @@ Proof.
   destruct (cut_at_panic (os1 ++ os2 ++ os3 ++ os4)) as [o p]. destruct p; [discriminate|]. inversion H; subst.
   rewrite E. apply in_or_app. left. rewrite Q3. apply filter_In. split; [exact Q2|]. apply negb_true_iff, N.leb_gt. exact Hlt.
 Qed.
+
+(* ---- the completion step: a waiting service whose records are active is announced ------------------------ *)
+
+Lemma aget_sput_other k k0 v (l : list (bytes * svc)) : k <> k0 -> aget k (sput k0 v l) = aget k l.
+Proof. intros H. unfold sput. apply aget_aset_other. exact H. Qed.
+
+(* once announced on the interface, a service stays announced through the rest of the pass *)
+Lemma announce_waiting_keeps_announced itf now m : forall waiting rg svcs js k,
+  (exists s1, aget k svcs = Some s1 /\ announced_on (if_index itf) s1 = true) ->
+  exists s2, aget k (snd (fst (fst (fst (announce_waiting waiting itf rg svcs now js m))))) = Some s2 /\ announced_on (if_index itf) s2 = true.
+Proof.
+  induction waiting as [|w0 t IH]; intros rg svcs js k H; [exact H|]. cbn [announce_waiting].
+  destruct (aget (lower w0) svcs) as [s0|] eqn:G0; [|apply IH; exact H].
+  destruct (announced_on (if_index itf) s0) eqn:A0; [apply IH; exact H|].
+  destruct (announce_both s0 itf rg now js) as [[[rg1 os] ann] js1]. destruct ann.
+  - assert (H1 : exists s1, aget k (sput (lower w0) (set_status (if_index itf) SAnnounced s0) svcs) = Some s1 /\ announced_on (if_index itf) s1 = true).
+    { destruct (beq k (lower w0)) eqn:B.
+      - apply beq_eq in B. subst k. unfold sput. rewrite aget_aset_same. eexists. split; [reflexivity|].
+        unfold announced_on, set_status. cbn [s_status]. rewrite nget_nset_same. reflexivity.
+      - rewrite aget_sput_other; [exact H|]. intros E. rewrite E, beq_refl in B. discriminate. }
+    specialize (IH rg1 _ js1 k H1).
+    destruct (announce_waiting t itf rg1 (sput (lower w0) (set_status (if_index itf) SAnnounced s0) svcs) now js1 m) as [[[[rg2 svcs2] os2] rt2] js2]. exact IH.
+  - specialize (IH rg1 svcs js1 k H). destruct (announce_waiting t itf rg1 svcs now js1 m) as [[[[rg2 svcs2] os2] rt2] js2]. exact IH.
+Qed.
+
+(* announce_waiting: a waiting name w whose service is registered, not yet announced on the interface
+   and announceable in family v4 under the registry the pass has reached: the announcement goes out,
+   the status becomes Announced and the second announcement is queued for now + 1000.
+   (Services announced earlier in the same pass only add probes to the registry: reg_stable.) *)
+Lemma announce_waiting_completes itf now m v4 : forall waiting rg svcs js w s,
+  In w waiting -> aget (lower w) svcs = Some s -> announced_on (if_index itf) s = false ->
+  announceable s itf rg v4 ->
+  let '(_, svcs2, os, rt, _) := announce_waiting waiting itf rg svcs now js m in
+  In (OSend (if_index itf) v4 Mcast (announcement_of s itf rg v4)) os /\
+  (exists s2, aget (lower w) svcs2 = Some s2 /\ announced_on (if_index itf) s2 = true) /\
+  In (now + 1000, RegisterResend (s_full s) (if_index itf)) rt.
+Proof.
+  induction waiting as [|w0 t IH]; intros rg svcs js w s Hin G NA A; [contradiction|]. cbn [announce_waiting].
+  destruct (beq (lower w0) (lower w)) eqn:B.
+  - (* this entry is (a spelling of) our name: it is announced here *)
+    apply beq_eq in B. rewrite B, G, NA.
+    destruct (announce_both_sends s itf rg now js v4 A) as [Hs Hann].
+    destruct (announce_both s itf rg now js) as [[[rg1 os] ann] js1]. cbn [fst snd] in Hs, Hann. subst ann.
+    pose proof (announce_waiting_keeps_announced itf now m t rg1 (sput (lower w) (set_status (if_index itf) SAnnounced s) svcs) js1 (lower w)) as K.
+    destruct (announce_waiting t itf rg1 (sput (lower w) (set_status (if_index itf) SAnnounced s) svcs) now js1 m) as [[[[rg2 svcs2] os2] rt2] js2].
+    split; [apply in_or_app; left; exact Hs|]. split.
+    + apply K. unfold sput. rewrite aget_aset_same. eexists. split; [reflexivity|]. unfold announced_on, set_status. cbn [s_status]. rewrite nget_nset_same. reflexivity.
+    + left. destruct (announce_repeat_pinned now) as [-> _]. reflexivity.
+  - (* another entry first *)
+    assert (Hne : lower w <> lower w0) by (intros E; rewrite E, beq_refl in B; discriminate).
+    assert (Hin' : In w t) by (destruct Hin as [->|H]; [rewrite beq_refl in B; discriminate|exact H]).
+    destruct (aget (lower w0) svcs) as [s0|] eqn:G0; [|apply (IH rg svcs js w s Hin' G NA A)].
+    destruct (announced_on (if_index itf) s0); [apply (IH rg svcs js w s Hin' G NA A)|].
+    pose proof (announce_both_stable s0 itf rg now js) as ST.
+    destruct (announce_both s0 itf rg now js) as [[[rg1 os] ann] js1]. cbn [fst] in ST.
+    assert (A1 : announceable s itf rg1 v4) by (apply (announceable_stable _ _ rg); assumption).
+    destruct ann.
+    + assert (G1 : aget (lower w) (sput (lower w0) (set_status (if_index itf) SAnnounced s0) svcs) = Some s) by (rewrite aget_sput_other; assumption).
+      specialize (IH rg1 _ js1 w s Hin' G1 NA A1).
+      destruct (announce_waiting t itf rg1 (sput (lower w0) (set_status (if_index itf) SAnnounced s0) svcs) now js1 m) as [[[[rg2 svcs2] os2] rt2] js2].
+      destruct IH as (I1 & I2 & I3). rewrite (announcement_of_stable s itf rg rg1 v4 ST) in I1.
+      split; [apply in_or_app; right; apply in_or_app; right; exact I1|]. split; [exact I2|right; exact I3].
+    + specialize (IH rg1 svcs js1 w s Hin' G NA A1).
+      destruct (announce_waiting t itf rg1 svcs now js1 m) as [[[[rg2 svcs2] os2] rt2] js2].
+      destruct IH as (I1 & I2 & I3). rewrite (announcement_of_stable s itf rg rg1 v4 ST) in I1.
+      split; [apply in_or_app; right; exact I1|]. split; [exact I2|exact I3].
+Qed.
+
+(* THE COMPLETION STEP of the probing handler on one interface: the pass over the interface's registry
+   (probe_step) finishes probes whose waiting list names w; if the service registered under w is not
+   yet announced there and is announceable in family v4 under the registry after that pass, the
+   announcement is sent in this very iteration's probing pass, and in the state after the interface's
+   micro-step (Model/RegistryTrace.v, st_probing) the service is Announced on the interface and its
+   second announcement is queued for now + 1000 *)
+Theorem probing_pass_completes itf t st now js rg rg1 qs evs waiting w s v4 :
+  nget (if_index itf) (d_regs st) = Some rg -> probe_step rg now = (rg1, qs, evs, waiting) ->
+  In w waiting -> aget (lower w) (d_svcs st) = Some s -> announced_on (if_index itf) s = false ->
+  announceable s itf rg1 v4 ->
+  In (OSend (if_index itf) v4 Mcast (announcement_of s itf rg1 v4)) (snd (fst (probing_intfs (itf :: t) st now js))) /\
+  match st_probing (itf :: t) st now js with
+  | mid :: _ => (exists s2, aget (lower w) (d_svcs mid) = Some s2 /\ announced_on (if_index itf) s2 = true) /\
+                In (now + 1000, RegisterResend (s_full s) (if_index itf)) (d_retrans mid)
+  | [] => False
+  end.
+Proof.
+  intros R PS Hin G NA A. cbn [probing_intfs st_probing]. rewrite R, PS.
+  pose proof (announce_waiting_completes itf now (d_mon st) v4 waiting rg1 (d_svcs st) js w s Hin G NA A) as H.
+  destruct (announce_waiting waiting itf rg1 (d_svcs st) now js (d_mon st)) as [[[[rg2 svcs2] os2] rt2] js2].
+  destruct H as (H1 & H2 & H3).
+  match goal with |- context [probing_intfs t ?s0 now js2] => destruct (probing_intfs t s0 now js2) as [[st2 os3] js3] end.
+  cbn [fst snd d_svcs d_retrans]. split.
+  - apply in_or_app. right. apply in_or_app. right. apply in_or_app. left. exact H1.
+  - split; [exact H2|apply in_or_app; right; exact H3].
+Qed.
